@@ -604,7 +604,8 @@ def main(ctx):
     cases = []
     variants = ["loose", "packed", "mixed", "mixed-fsync"]
     for s in SCENARIOS:
-        for v in (variants if ctx.thorough else (["mixed", "mixed-fsync"] + (["loose"] if s in ("pack_refs", "repack", "gc", "pack_loose_objects", "commit") else []))):
+        for v in (variants if ctx.thorough else (["mixed", "mixed-fsync"] + (["loose"] if s in ("pack_refs", "repack", "gc", "pack_loose_objects", "commit") else []) +
+                                                  (["packed"] if s in ("repack", "gc", "pack_loose_objects") else []))):
             cases.append({"kind": "scenario", "scenario": s, "variant": v, "optional": s in ("write_midx",)})
     rng = ctx.sub_rng("kill")
     kill_scen = ["commit", "pack_refs", "set_if_equals", "repack", "add_objects", "remove_if_equals"] if not ctx.thorough else SCENARIOS
